@@ -386,7 +386,7 @@ theorem decodeForm_eq_spec_partial (fields : List (Str × List Str)) (encs : Lis
     (hu : formUnparsable fields encs props = false)
     (hwf : encsWF encs props = true) (hpre : ∀ kp ∈ props, declOK kp.2 = true) :
     specFormProps fields encs props = some (decodeFormProps fields encs props) :=
-  formProps_agree fields encs props hu hwf (fun kp h => propPre_of_declOK kp.2 (hpre kp h))
+  formProps_agree fields encs props hu hwf (fun kp h => Or.inr (propPre_of_declOK kp.2 (hpre kp h)))
 
 /-- inside `FormFieldUnparsable` the decoder really differs from what the fields encode: `a=x` for an integer
 property encodes nothing, the decoder answers the empty object (finding #20 / F-C06-1) -/
@@ -415,7 +415,7 @@ written under the per-property encodings (exploded, or joined with the style's d
 contains it), the fields written encode exactly that object: decimal integers, `n.5` numbers, booleans
 and strings parse back to themselves. Any number of properties, any values. -/
 theorem specForm_roundtrip (encs : List (Str × Enc)) (val : Str → Option V) (props : List (Str × RS))
-    (hnd : (keys props).Nodup)
+    (hnd : (keys props).Nodup) (hnc : ∀ kp ∈ props, hasCompP kp.2 = false)
     (henc : ∀ k p v, (k, p) ∈ props → val k = some v → FormEncodable p (lookup k encs) v) :
     specFormProps (encodeForm encs val props) encs props = some (objOf val props) := by
   have gen : ∀ ps : List (Str × RS), (∀ kp ∈ ps, kp ∈ props) →
@@ -434,8 +434,12 @@ theorem specForm_roundtrip (encs : List (Str × Enc)) (val : Str → Option V) (
       cases hv : val k with
       | none =>
         rw [hv] at hl
-        have : specFormProp (encodeForm encs val props) k p (lookup k encs) = some none := by
-          unfold specFormProp; rw [hl]; rfl
+        have : specDecl (encodeForm encs val props) k p (lookup k encs) = some none := by
+          unfold specDecl specFormProp
+          simp only [Option.bind_none] at hl
+          rw [hl]
+          rw [hnc (k, p) hmem]
+          rfl
         simp [this, objOf, hv]
       | some v =>
         have he := henc k p v hmem hv
@@ -454,7 +458,7 @@ theorem decodeForm_roundtrip (encs : List (Str × Enc)) (val : Str → Option V)
     (henc : ∀ k p v, (k, p) ∈ props → val k = some v → FormEncodable p (lookup k encs) v)
     (hwf : encsWF encs props = true) (hpre : ∀ kp ∈ props, declOK kp.2 = true) :
     decodeFormProps (encodeForm encs val props) encs props = objOf val props := by
-  have hs := specForm_roundtrip encs val props hnd henc
+  have hs := specForm_roundtrip encs val props hnd (fun kp h => noComp_of_declOK kp.2 (hpre kp h)) henc
   have hu : formUnparsable (encodeForm encs val props) encs props = false := by
     generalize encodeForm encs val props = fields at hs
     generalize objOf val props = o at hs
@@ -465,13 +469,13 @@ theorem decodeForm_roundtrip (encs : List (Str × Enc)) (val : Str → Option V)
       obtain ⟨k, p⟩ := x
       unfold specFormProps at hs
       simp only [formUnparsable, List.any_cons, Bool.or_eq_false_iff]
-      cases h1 : specFormProp fields k p (lookup k encs) with
+      cases h1 : specDecl fields k p (lookup k encs) with
       | none => simp [h1] at hs
       | some o1 =>
         cases h2 : specFormProps fields encs r with
         | none => cases o1 <;> simp [h1, h2] at hs
         | some l => exact ⟨by simp, ih l h2⟩
-  have := formProps_agree _ encs props hu hwf (fun kp h => propPre_of_declOK kp.2 (hpre kp h))
+  have := formProps_agree _ encs props hu hwf (fun kp h => Or.inr (propPre_of_declOK kp.2 (hpre kp h)))
   rw [hs] at this
   exact (Option.some.inj this).symm
 
@@ -521,13 +525,13 @@ theorem member_decls_sub_flatDecls (s m : RS) (hm : m ∈ s.allOf ∨ m ∈ s.an
 /-- a declaration kept by the property loop is decoded under the encoding registered for its name -/
 theorem decodeFormProps_mem (fields : List (Str × List Str)) (encs : List (Str × Enc)) (decls : List (Str × RS))
     (k : Str) (v : V) (h : (k, v) ∈ decodeFormProps fields encs decls) :
-    ∃ p, (k, p) ∈ decls ∧ decodeFormProp fields k p (lookup k encs) = some v := by
+    ∃ p, (k, p) ∈ decls ∧ decodePropC fields k (lookup k encs) p = some v := by
   induction decls with
   | nil => simp [decodeFormProps] at h
   | cons x r ih =>
     obtain ⟨k0, p0⟩ := x
     unfold decodeFormProps at h
-    cases hd : decodeFormProp fields k0 p0 (lookup k0 encs) with
+    cases hd : decodePropC fields k0 (lookup k0 encs) p0 with
     | none =>
       simp only [hd] at h
       obtain ⟨p, hp, hv⟩ := ih h
@@ -673,13 +677,13 @@ theorem decode_agrees (reg : List (Str × DecK)) (rb : ReqBody) (ct : Str) (b : 
               simp [h, hc', hs, hn, hreg, hf, hty, hpre]
             simp only [exclFormUnparsable, hrun] at h1
             simp only [formEncsWF, hrun] at h3
-            cases hok : (!(flatDecls s).all fun kp => declOK kp.snd) || numClash (flatDecls s) with
+            cases hok : (!(flatDecls s).all fun kp => declOKC kp.snd) || numClash (flatDecls s) with
             | true => simp
             | false =>
               simp only [Bool.or_eq_false_iff, Bool.not_eq_false'] at hok
-              have hdecl : ∀ kp ∈ flatDecls s, propPre kp.2 := by
+              have hdecl : ∀ kp ∈ flatDecls s, hasCompP kp.2 = true ∨ propPre kp.2 := by
                 intro kp hkp
-                exact propPre_of_declOK kp.2 (List.all_eq_true.mp hok.1 kp hkp)
+                exact declOKC_cases kp.2 (List.all_eq_true.mp hok.1 kp hkp)
               have := formProps_agree fields mt.encs (flatDecls s) h1 h3 hdecl
               simp only [this, Bool.false_eq_true, if_false, Option.bind_some, beq_self_eq_true, if_true]
               cases mergeKV (decodeFormProps fields mt.encs (flatDecls s)) <;> simp
